@@ -509,6 +509,10 @@ def worker(ctx):
             ctx.add('shapes', str(shape))
         except Mismatch as m:
             ctx.violation(m.key, m.detail, info)
+        except D.DumpError as e:
+            # the reference reading of a loop goes through an iterator of its own: if none can be had for a loop that
+            # exists, its packets cannot be delivered at all
+            ctx.violation('dump:%s:%d' % (e.fn, e.rc), 'reading the loop back: %s' % e, info)
         if ctx.drain_events(info):
             pass
         if first:
